@@ -45,6 +45,14 @@ type Group struct {
 // Dead reports whether the crash point has been reached.
 func (g *Group) Dead() bool { g.mu.Lock(); defer g.mu.Unlock(); return g.dead }
 
+// Snapshot returns a copy of the recorded writes (goroutines of an operation that already
+// returned an error may still be writing).
+func (g *Group) Snapshot() []Write {
+	g.mu.Lock()
+	defer g.mu.Unlock()
+	return append([]Write(nil), g.Writes...)
+}
+
 // Count is the number of mutating calls seen.
 func (g *Group) Count() int { g.mu.Lock(); defer g.mu.Unlock(); return g.count }
 
